@@ -749,7 +749,7 @@ TRUSTED = [
     "OS/libc contract layer /verif/os/os_posix.c (assumed, DESIGN §2.3): pipe close fcntl open dup2 fileno read write poll fork waitpid kill execvp _exit chdir getrlimit sigfillset sigemptyset pthread_sigmask sigaction clock_gettime malloc calloc realloc strdup getcwd",
     "model bound: descriptors that can be open are numbered < 32",
     "Linux read/write transfer at most 0x7ffff000 bytes per call",
-    "virtual millisecond clock is non-decreasing and within (2^32, 2^52)",
+    "virtual millisecond clock is non-decreasing and within (2^32, 2^52) (reproc reads CLOCK_REALTIME, which an administrator or NTP may step: a stepped wall clock is outside what the properties quantify over and is not modelled)",
     "CBMC 6.11.0: goto-cc C semantics for x86_64 Linux, DFCC contract instrumentation, built-in malloc/free/string models, MiniSat back end; machine integers are bit-vectors",
     "build configuration -DNDEBUG -DREPROC_MULTITHREADED (the baseline's): ASSERT() is compiled out",
     "sequential execution; no signal handler runs inside the library",
